@@ -14,7 +14,7 @@ ASSUMPTIONS = [
 ]
 BOUNDS = {"quick": "TOTP: every 20-octet digest (free), every time 0..2^40, offsets -1,0,1; CRA: free 32-octet digests, key lengths {16,32,57,58,64,96}, salted and unsalted; SCRAM: free 32-octet KDF/HMAC/hash outputs, every 32-octet alleged server signature, both KDFs, WELCOME with/without prior CHALLENGE; cryptosign: all 32+32 octets of challenge and channel id",
           "thorough": "same plus key lengths 1..128"}
-EXPECT_COVERS = ["totp", "totp:check", "cra:salted", "cra:plain", "scram:proof", "scram:welcome-accept", "scram:welcome-reject", "scram:no-challenge", "cryptosign:bound", "cryptosign:unbound"]
+EXPECT_COVERS = ["totp", "totp:check", "cra:salted", "cra:plain", "scram:proof", "scram:welcome-accept", "scram:welcome-reject", "scram:no-challenge", "scram:no-signature", "cryptosign:bound", "cryptosign:unbound"]
 BUDGET = {"quick": dict(wall_s=300, max_paths=20000, diff_samples=3), "thorough": dict(wall_s=1800)}
 
 B64 = b"ABCDEFGHIJKLMNOPQRSTUVWXYZabcdefghijklmnopqrstuvwxyz0123456789+/"
@@ -275,6 +275,17 @@ def scram(sx, kdf, phase):
     except Exception as e:  # noqa
         sx.fail("on_challenge-raises-for-a-valid-CHALLENGE", info=dict(kdf=kdf, exc=repr(e)), known=[("C19-scram-pbkdf2-str-salt", kdf == "pbkdf2")])
         return ["exc"]
+    if phase == "no-signature":
+        # mutual authentication: a WELCOME that does not carry the server signature at all must not be accepted either
+        for ax in (None, {}, {"other": 1}, {"scram_server_signature": None}, {"scram_server_signature": ""}):
+            try:
+                r = a.on_welcome(Sess, ax)
+                accepted = r is None
+            except Exception:
+                accepted = False          # an exception out of on_welcome makes the session send ABORT(wamp.error.cannot_authenticate): protocol.py Welcome branch, error()
+            sx.check(not accepted, "WELCOME-without-server-signature-is-refused", info=dict(authextra=repr(ax)))
+        sx.cover("scram:no-signature")
+        return [kdf]
     am = "n=joe,r=%s,r=%s,s=%s,i=4096,c=,r=%s" % (nonce, nonce + "srv", "c2FsdHNhbHQ=", nonce + "srv")
     sx.check(bytes(a._auth_message) == am.encode("ascii"), "auth-message-layout(RFC 5802)", info=dict(got=repr(a._auth_message)))
     sp = a._salted_password
@@ -351,6 +362,7 @@ def units(tier):
     for kdf in ("pbkdf2", "argon2id-13"):
         U.append(("scram/%s" % kdf, "scram", dict(kdf=kdf, phase="full"), dict(weight=5)))
     U.append(("scram/no-challenge", "scram", dict(kdf="pbkdf2", phase="no-challenge")))
+    U.append(("scram/no-signature", "scram", dict(kdf="argon2id-13", phase="no-signature")))
     for b in (True, False):
         U.append(("cryptosign/%s" % ("bound" if b else "unbound"), "cryptosign", dict(bound=b), dict(weight=3)))
     return U
